@@ -82,6 +82,7 @@ func Load(repo string, overlay map[string]string, patterns []string) (*Program, 
 			for real, model := range map[string]string{
 				"github.com/charlievieth/fastwalk.Walk":            "zzMX_fastwalk_Walk",
 				"github.com/charlievieth/fastwalk.DefaultToSlash": "zzMX_fastwalk_DefaultToSlash",
+				"net.Listen": "zzMX_net_Listen",
 			} {
 				if fn := pk.Func(model); fn != nil {
 					P.redirect[real] = fn
@@ -101,7 +102,7 @@ func Load(repo string, overlay map[string]string, patterns []string) (*Program, 
 	}
 	for _, s := range []string{modPath + "/src/algo", modPath + "/src/util", modPath + "/src", modPath + "/src/zzv",
 		"unicode", "unicode/utf8", "strings", "bytes", "strconv", "sort", "math", "math/bits", "unicode/utf16", "io", "errors", "io/fs", "bufio", "path/filepath", "path",
-		"internal/stringslite", "slices", "cmp", "crypto/subtle"} {
+		"internal/stringslite", "slices", "cmp", "crypto/subtle", "net", "internal/poll"} {
 		P.initPkgs[s] = true
 	}
 	return P, nil
